@@ -227,6 +227,20 @@ def gen_T04():
     need(len(pe) == 1, 'no ircutils._hostmaskPatternEqual')
     comp = [ast.unparse(n) for n in ast.walk(pe[0]) if isinstance(n, ast.Call) and ast.unparse(n.func) == 're.compile']
     need(comp == ['re.compile(fd.getvalue(), re.I | re.A)'], '_hostmaskPatternEqual: regexp flags changed (model: ASCII-only case folding): %r' % comp)
+    # ---- src/ircutils.py: the two memo layers in front of the matcher: keyed by the very strings that are matched
+    hpe = [n for n in iu.body if isinstance(n, ast.FunctionDef) and n.name == 'hostmaskPatternEqual']
+    need(len(hpe) == 1, 'no ircutils.hostmaskPatternEqual')
+    hb = [ast.unparse(x) for x in hpe[0].body if not (isinstance(x, ast.Expr) and isinstance(x.value, ast.Constant))]
+    need(hb == ['try:\n    return _hostmaskPatternEqualCache[pattern, hostmask]\nexcept KeyError:\n    b = _hostmaskPatternEqual(pattern, hostmask)\n'
+                '    _hostmaskPatternEqualCache[pattern, hostmask] = b\n    return b'],
+         'hostmaskPatternEqual: the result cache must be keyed by (pattern, hostmask) themselves: %r' % hb)
+    pb = ast.unparse(pe[0])
+    need('return _patternCache[pattern](hostmask) is not None' in pb and '_patternCache[pattern] = f' in pb,
+         '_hostmaskPatternEqual: the compiled-pattern cache must be keyed by the pattern itself')
+    memo = dict((ast.unparse(x.targets[0]), ast.unparse(x.value)) for x in iu.body
+                if isinstance(x, ast.Assign) and ast.unparse(x.targets[0]) in ('_patternCache', '_hostmaskPatternEqualCache'))
+    need(memo == {'_patternCache': 'utils.structures.CacheDict(1000)', '_hostmaskPatternEqualCache': 'utils.structures.CacheDict(1000)'},
+         'ircutils memo caches changed: %r' % memo)
     out = 'Require Import Base.Wire.\n'
     out += '(* utils.structures.CacheDict(n) of UsersDictionary._hostmaskCache / _nameCache *)\n'
     out += 'Definition CACHE_MAX : N := %d.\n' % cache_max
